@@ -181,9 +181,11 @@ C10BitRef(n, b) ==
 \* cs = <<call on the interpreter, the same call on the compiled instance>>
 \* excluded by documentation: look-ahead over truncated data (generated code omits the checks that turn a short read into
 \* the error Peek recovers from)
+\* the interpreter's run recovered (Peek, Select, Optional, GreedyRange) from running out of data: generated code does not notice short reads
+AbsorbedTruncation(i) == \E k \in 1..Len(i.events) : i.events[k].e = "out" /\ ~i.events[k].ok /\ i.events[k].err = "StreamError"
 TruncatedLookahead(n, i) == AnyNode(n, {"Peek"}) /\ \E k \in 1..Len(i.events) : i.events[k].e = "out" /\ ~i.events[k].ok /\ i.events[k].err = "StreamError"
 C04Equiv(n, i, c) ==
-    Tri(i.res.ok,
+    Tri(i.res.ok /\ ~AbsorbedTruncation(i),
         c.res.ok /\ ValEq(i.res.v, c.res.v) /\ (i.op = "parse" => i.res.p = c.res.p))
 
 \* C16  lazy parsing is observationally equal to eager parsing under any access order.
